@@ -120,6 +120,8 @@ def solve_sat(
     for clause in clauses:
         for lit in clause:
             n_vars = max(n_vars, lit_var(lit))
+    for lit in assumptions:
+        n_vars = max(n_vars, lit_var(lit))
 
     if n_vars == 0:
         return Result({}, 0, 0, 0)
@@ -398,9 +400,13 @@ def solve_sat(
             add_watch(clause[0], i)
             add_watch(clause[1], i)
 
-    for var, val in find_pure_literals():
-        if vals[var] == UNDEF:
-            assign(var, val, -1)
+    # Pure literals keep satisfiability but hide models, so only use them for single-solution search,
+    # and never let them pre-empt an assumption
+    if solution_limit <= 1:
+        assumed_vars = {lit_var(lit) for lit in assumptions}
+        for var, val in find_pure_literals():
+            if vals[var] == UNDEF and var not in assumed_vars:
+                assign(var, val, -1)
 
     for lit, idx in unit_clauses:
         var = lit_var(lit)
